@@ -107,6 +107,33 @@ def work(item):
                     acc.query(prover, None, f"{v.name} {side}", f"finite(out[{i}])", s.d, D, pc, on_sat_d, sample=False, retry_envs=penv)
         for kind, cond, opc, note in obl:
             acc.query(prover, None, f"{v.name} numpy", note, cond, D, opc, lambda m: None, sample=False)
+    # plain-execution companion: integer-dtype arrays holding whole numbers must give what float arrays give
+    import numpy as np
+    for trial in range(3):
+        env = {k: float(round(x)) or 1.0 for k, x in sample_env(v, rng).items()}
+        a_f, e1 = prims.run_numpy_float(v, env)
+        try:
+            args_i = []
+            for a_ in v.args:
+                if a_.is_static:
+                    args_i.append(a_.static)
+                elif a_.n == 0:
+                    args_i.append(int(env[a_.name]) if a_.name in ("rho", "v", "q", "w", "d") else float(env[a_.name]))
+                elif a_.n < 0:
+                    args_i.append(np.zeros(0))
+                else:
+                    args_i.append(np.array([int(env[f"{a_.name}[{i}]"]) for i in range(a_.n)], dtype=np.int64))
+            from sym_metanet.engines.numpy import Engine as _NE
+            with np.errstate(all="ignore"):
+                r_i = prims.get_prim(_NE(), v.prim)(*args_i)
+            a_i = [float(x) for x in np.atleast_1d(np.asarray(r_i, dtype=float)).reshape(-1)]
+        except Exception as e:  # noqa
+            a_i, e1 = None, e1 or e
+        ex["int_dtype_runs"] = ex.get("int_dtype_runs", 0) + 1
+        if e1 is None and a_i is not None and a_f is not None and any(not numrun.close(x, y, 1e-9, 1e-9) for x, y in zip(a_f, a_i)):
+            acc.d["violations"].append(viol(v, "int", f"NumPy primitive with integer-dtype arrays gives {a_i}, with the same numbers as float arrays {a_f}",
+                                            {"property": PID, "kind": "structural", "variant": v.name, "symtype": "int", "what": f"int dtype {a_i} vs float {a_f} at {env}"}))
+            break
     if acc.d["samples"]:
         for s in acc.d["samples"]:
             s["primitive"] = v.name
@@ -188,7 +215,8 @@ def main():
          "functions_encoded": ["engines.numpy: NodesEngine, LinksEngine, OriginsEngine, DestinationsEngine, Engine.max, Engine.vcat",
                                "engines.casadi: the same, through casadi.Function IR (SX, MX->expand)"]})
     assumptions = ["exact real arithmetic; DM (numeric) evaluation of the CasADi primitives is the same CasADi code evaluated numerically (trusted, sampled in encoder validation)",
-                   "definedness over the reals: overflow outside; min/max NaN-propagating"]
+                   "definedness over the reals: overflow outside; min/max NaN-propagating",
+                   "integer-dtype companion runs (whole numbers in int64 arrays vs float64 arrays) are plain execution: array dtype is outside the symbolic model"]
     harness.finish(args, "model_checking", cov, assumptions, viol_, inc, t0)
 
 
